@@ -254,56 +254,57 @@ __CPROVER_ensures(g_fin_calls == OLD(g_fin_calls) + 1 && g_fin_last == aio && g_
 ;
 
 /* =====================================================================
- * push0_set_send_buf_len (NNG_OPT_SENDBUF, 0..8192): new depth; blocked senders are admitted into new room,
- * oldest first, behind what is already buffered (send order kept, nobody overtakes them)
+ * push0_set_send_buf_len (NNG_OPT_SENDBUF, 0..8192; real nni_copyin_int of src/core/options.c): new depth;
+ * blocked senders are admitted into new room, oldest first, behind what is already buffered (send order kept,
+ * nobody overtakes them).  nni_lmq_resize is REPLACED by its contract (modules/lmq, unit lmq_resize, grade P):
+ * the messages a shrink discards are counted by that contract's ghost g_msg_freed.
  * ===================================================================== */
-#define SB_OK (g_copyin_rv == 0 && RV == 0)
+#define SB_VAL (*(const int *) buf)
+#define SB_OKARG (t == NNI_TYPE_INT32 && SB_VAL >= 0 && SB_VAL <= 8192)
+#define SB_OK (SB_OKARG && RV == 0)
 #define SB_L1 VP_MIN(OLD(WQ->lmq_len), WQ->lmq_cap)          /* buffered messages that survive */
 #define SB_K VP_MIN(OLD(g_qa.n), WQ->lmq_cap - SB_L1)         /* blocked senders admitted */
 static nng_err push0_set_send_buf_len(void *arg, const void *buf, size_t sz, nni_type t)
 __CPROVER_requires(arg == g_s)
+__CPROVER_requires(t == NNI_TYPE_INT32 ==> __CPROVER_is_fresh(buf, sizeof(int)))
 __CPROVER_requires(VP_AIOQS_PRE && g_qa.n <= PUSH_SB_MAXWAIT)
 __CPROVER_requires(PUSH_WAITER_PRE)
 __CPROVER_requires(PUSH_SOCK_PRE)
 __CPROVER_requires(PUSH_GHOST_EQ)
-/* buffered messages are unshared real messages (a shrink releases what no longer fits) */
-__CPROVER_requires(PUSH_SLOT_MSG_PRE(0) && PUSH_SLOT_MSG_PRE(1) && PUSH_SLOT_MSG_PRE(2) && PUSH_SLOT_MSG_PRE(3))
 __CPROVER_requires(g_k < WQ->lmq_len ==> g_p == (void *) LMQ_VIEW(WQ, g_k))
-__CPROVER_assigns(*WQ, VP_PROTO_GHOST_LIST, VP_SYNC_GHOSTS, g_free_calls, g_alloc_ok)
-__CPROVER_assigns(WQ->lmq_alloc != 0: __CPROVER_object_whole(WQ->lmq_msgs))
+__CPROVER_assigns(*WQ, VP_PROTO_GHOST_LIST, VP_SYNC_GHOSTS, g_free_calls, g_alloc_ok, g_msg_freed, g_msg_freed_at_j)
 __CPROVER_assigns(g_qa.n > 0: g_qa.head->a_msg)
-__CPROVER_assigns(*PUSH_SLOT(0), *PUSH_SLOT(1))
-__CPROVER_assigns(WQ->lmq_alloc != 0: *PUSH_SLOT(2), *PUSH_SLOT(3))
-__CPROVER_frees(PUSH_SLOT(0), PUSH_SLOT(1), PUSH_SLOT(0)->m_body.ch_buf, PUSH_SLOT(1)->m_body.ch_buf)
-__CPROVER_frees(WQ->lmq_alloc != 0: PUSH_SLOT(2), PUSH_SLOT(3), PUSH_SLOT(2)->m_body.ch_buf, PUSH_SLOT(3)->m_body.ch_buf)
 __CPROVER_frees(WQ->lmq_alloc != 0: WQ->lmq_msgs)
 __CPROVER_ensures(VP_NO_LOCK_HELD && VP_AIOQS_OK && LMQ_WF_SCALAR(WQ) && PL_SAME)
+__CPROVER_ensures(t != NNI_TYPE_INT32 ==> RV == NNG_EBADTYPE)
+__CPROVER_ensures((t == NNI_TYPE_INT32 && !SB_OKARG) ==> RV == NNG_EINVAL)
+__CPROVER_ensures(SB_OKARG ==> (RV == NNG_OK || RV == NNG_ENOMEM))
 /* refused value: nothing at all happens */
-__CPROVER_ensures(g_copyin_rv != 0 ==> (RV == (nng_err) g_copyin_rv && g_alloc_ok == OLD(g_alloc_ok) && g_free_calls == OLD(g_free_calls) && WQ->lmq_cap == OLD(WQ->lmq_cap) && WQ->lmq_len == OLD(WQ->lmq_len) && g_qa.n == OLD(g_qa.n) && g_fin_calls == OLD(g_fin_calls) && g_pollw == OLD(g_pollw)))
+__CPROVER_ensures(!SB_OKARG ==> (VP_HEAP_DELTA(0, 0) && g_msg_freed == OLD(g_msg_freed) && WQ->lmq_cap == OLD(WQ->lmq_cap) && WQ->lmq_len == OLD(WQ->lmq_len) && g_qa.n == OLD(g_qa.n) && g_fin_calls == OLD(g_fin_calls) && g_pollw == OLD(g_pollw)))
 /* no memory: depth, content and order unchanged, nothing released */
-__CPROVER_ensures((g_copyin_rv == 0 && RV != 0) ==> (RV == NNG_ENOMEM && WQ->lmq_cap == OLD(WQ->lmq_cap) && g_free_calls == OLD(g_free_calls)))
+__CPROVER_ensures((SB_OKARG && RV != 0) ==> (WQ->lmq_cap == OLD(WQ->lmq_cap) && VP_HEAP_DELTA(0, 0) && g_msg_freed == OLD(g_msg_freed)))
 /* accepted: new depth */
-__CPROVER_ensures(SB_OK ==> WQ->lmq_cap == (size_t) g_copyin_val)
+__CPROVER_ensures(SB_OK ==> WQ->lmq_cap == (size_t) SB_VAL)
 /* the oldest min(len, depth) buffered messages survive in order ... */
-__CPROVER_ensures((g_copyin_rv == 0 && g_k < SB_L1) ==> LMQ_VIEW(WQ, g_k) == (nni_msg *) g_p)
+__CPROVER_ensures((SB_OKARG && g_k < SB_L1) ==> LMQ_VIEW(WQ, g_k) == (nni_msg *) g_p)
 /* ... and blocked senders fill the room behind them, oldest first: each admitted sender completes with success and no longer owns its message */
-__CPROVER_ensures(g_copyin_rv == 0 ==> (WQ->lmq_len == SB_L1 + SB_K && g_qa.n == OLD(g_qa.n) - SB_K && g_fin_calls == OLD(g_fin_calls) + SB_K))
-__CPROVER_ensures((g_copyin_rv == 0 && SB_K > 0) ==> (LMQ_VIEW(WQ, SB_L1) == (nni_msg *) g_p2 && OLD(g_qa.head)->a_msg == NULL && g_fin_last_rv == 0 && g_fin_last_msg == NULL && (SB_K == 1 ==> (g_fin_last == OLD(g_qa.head) && g_fin_last_count == g_n))))
+__CPROVER_ensures(SB_OKARG ==> (WQ->lmq_len == SB_L1 + SB_K && g_qa.n == OLD(g_qa.n) - SB_K && g_fin_calls == OLD(g_fin_calls) + SB_K))
+__CPROVER_ensures((SB_OKARG && SB_K > 0) ==> (LMQ_VIEW(WQ, SB_L1) == (nni_msg *) g_p2 && OLD(g_qa.head)->a_msg == NULL && g_fin_last_rv == 0 && g_fin_last_msg == NULL && (SB_K == 1 ==> (g_fin_last == OLD(g_qa.head) && g_fin_last_count == g_n))))
 /* afterwards a sender is blocked only while the buffer is full (no missed wake-up, nobody can overtake a blocked sender) */
-__CPROVER_ensures(g_copyin_rv == 0 ==> (g_qa.n == 0 || PUSH_WQ_FULL))
+__CPROVER_ensures(SB_OKARG ==> (g_qa.n == 0 || PUSH_WQ_FULL))
 __CPROVER_ensures(g_stable0 ==> PUSH_STABLE)
 /* nothing is sent, nobody disconnected, timeouts not consulted */
 __CPROVER_ensures(g_pipe_send_calls == OLD(g_pipe_send_calls) && g_pipe_close_calls == OLD(g_pipe_close_calls) && g_start_calls == OLD(g_start_calls))
 /* conservation as long as the buffered messages fit the new depth */
-__CPROVER_ensures(OLD(WQ->lmq_len) <= WQ->lmq_cap ==> (PUSH_HELD == g_held0 && g_free_calls <= OLD(g_free_calls) + 1))
+__CPROVER_ensures(OLD(WQ->lmq_len) <= WQ->lmq_cap ==> (PUSH_HELD == g_held0 && g_msg_freed == OLD(g_msg_freed)))
 /* C15 relation re-established in every case */
 __CPROVER_ensures(g_wpoll0 ==> PUSH_WPOLL_INV)
-__CPROVER_ensures(g_copyin_rv == 0 ==> PUSH_WPOLL_INV)
+__CPROVER_ensures(SB_OKARG ==> PUSH_WPOLL_INV)
 #ifdef PUSH_SB_NOLOSS
 /* C06 "none lost ... for all send-buffer depths and resizes": an accepted (buffered) message is never discarded */
-__CPROVER_ensures(WQ->lmq_len >= OLD(WQ->lmq_len) && g_free_calls <= OLD(g_free_calls) + 1)
+__CPROVER_ensures(WQ->lmq_len >= OLD(WQ->lmq_len) && g_msg_freed == OLD(g_msg_freed))
 #endif
-COVER(SB_OK && SB_K == 3 && SB_L1 == 1) COVER(SB_OK && SB_K == 1 && OLD(g_qa.n) == 3 && OLD(WQ->lmq_alloc) == 0) COVER(SB_OK && OLD(WQ->lmq_len) == 4 && WQ->lmq_cap == 2) COVER(g_copyin_rv == 0 && RV != 0 && OLD(g_qa.n) == 2 && g_stable0) COVER(SB_OK && WQ->lmq_cap == 8192)
+COVER(SB_OK && SB_K == 2 && SB_L1 == 1) COVER(SB_OK && SB_K == 1 && OLD(g_qa.n) == 2 && OLD(WQ->lmq_alloc) == 0) COVER(SB_OK && OLD(WQ->lmq_len) == 4 && WQ->lmq_cap == 2) COVER(SB_OKARG && RV != 0 && OLD(g_qa.n) == 2 && g_stable0) COVER(SB_OK && WQ->lmq_cap == 8192) COVER(SB_OK && WQ->lmq_cap == 0 && OLD(WQ->lmq_len) == 1 && g_np == 2)
 ;
 /* clang-format on */
 #endif
